@@ -21,7 +21,7 @@ RULE = ("Generated: portfolios (a) without inter-temporal coupling (contracts wi
         "V_unsplit| <= tol, (b) V_split <= V_unsplit + tol; nodal balance of the split output on the original grid "
         "(C01's oracle). Non-trivial: >= 2 non-empty intervals and (a partial interval or wacc != 0 or a storage), "
         "with non-zero optimum. Distinct = distinct spec hash.")
-ASSUMPTIONS = ["an infeasible interval makes SplitOptimProblem.optimize raise (documented observation, no claim)",
+ASSUMPTIONS = ["an infeasible interval makes the split problem report failure (no further claim)",
                "storages in (b): inflow and holding cost not combined (the constant holding cost of inflow differs by construction)"]
 
 SPLITS = ["6h", "7h", "12h", "d", "d", "2d", "W"]
@@ -84,11 +84,11 @@ def check(spec):
     refs = [lpkit.solve(lpkit.from_op(o)) for o in ops]
     res = rs.optimize()
     if is_err(res):
-        if any(r[0] != "optimal" for r in refs):
-            return out.drop("interval_infeasible")
         return out.fail("split optimize raised " + res.short())
     if isinstance(res, str):
-        return out.drop("no_solution")
+        if res != "inaccurate" and all(r[0] == "optimal" for r in refs):
+            return out.fail("split optimize reports '%s' although every interval is feasible" % res)
+        return out.drop("interval_infeasible" if res != "inaccurate" else "inaccurate")
     resu = ru.optimize()
     if is_err(resu) or isinstance(resu, str):
         return out.drop("unsplit_no_solution")
